@@ -33,6 +33,7 @@ type c13Split struct {
 type c13SFile struct {
 	Codec   string
 	Results []vegeta.Result
+	Ext     string // file name extension; encodings are detected from the content, so it carries no meaning
 }
 
 var c13PctKeys = map[string]bool{"50th": true, "90th": true, "95th": true, "99th": true}
@@ -200,7 +201,7 @@ func runC13Split(c c13Split) error {
 	var files []string
 	var union []vegeta.Result
 	for i, f := range c.Files {
-		p, err := writeResults(dir, fmt.Sprintf("in%d.%s", i, f.Codec), f.Codec, f.Results)
+		p, err := writeResults(dir, fmt.Sprintf("in%d%s", i, f.Ext), f.Codec, f.Results)
 		if err != nil {
 			return err
 		}
@@ -329,7 +330,8 @@ func TestC13Commands(t *testing.T) {
 		var c c13Split
 		nf := rapid.IntRange(1, 6).Draw(t, "nfiles")
 		for i := 0; i < nf; i++ {
-			f := c13SFile{Codec: rapid.SampledFrom([]string{"gob", "csv", "json"}).Draw(t, fmt.Sprintf("codec%d", i))}
+			f := c13SFile{Codec: rapid.SampledFrom([]string{"gob", "csv", "json"}).Draw(t, fmt.Sprintf("codec%d", i)),
+				Ext: rapid.SampledFrom([]string{"", ".bin", ".gob", ".json", ".csv", ".dat", ".results"}).Draw(t, fmt.Sprintf("ext%d", i))}
 			n := rapid.IntRange(1, 10).Draw(t, fmt.Sprintf("len%d", i))
 			if rapid.IntRange(0, 3).Draw(t, fmt.Sprintf("one%d", i)) == 0 {
 				n = 1
